@@ -1,569 +1,17 @@
 (* C16: the invariant of the queue programs (Model/QueueCode.v) under the interleaving
-   semantics of Model/QueueProg.v, its inductiveness and its consequences.  Nothing here
-   depends on the generated programs; Proofs/QueueProofs.v transports the results. *)
+   semantics of Model/QueueProg.v holds initially and along every run (step lemma:
+   Proofs/QueueInvStep.v; definitions: Proofs/QueueInvBase.v), and its consequences.  Any number of
+   main threads per process (own = the process of each (main thread, feeder slot) pair).
+   Nothing here depends on the generated programs; Proofs/QueueProofs.v transports the results. *)
 From Coq Require Import ZArith List Bool Lia ZifyBool Arith.
 From BV Require Import Model.SemProg Model.QueueProg Model.QueueCode Proofs.SemProgProofs.
+From BV Require Export Proofs.QueueInvBase Proofs.QueueInvStep.
 Import ListNotations.
 Open Scope Z_scope.
 
-(* ================================================================== invariant *)
-
-Notation qcode := QueueCode.code.
 Opaque upds updz upd updp.
-
-(* ids of the per-process semaphores (kept opaque so that cbn does not normalise them) *)
-Definition nls (p : nat) : nat := (8 + 2 * p)%nat.
-Definition nss (p : nat) : nat := (9 + 2 * p)%nat.
-Lemma nls_eq : forall p, nls p = (8 + 2 * p)%nat. Proof. reflexivity. Qed.
-Lemma nss_eq : forall p, nss p = (9 + 2 * p)%nat. Proof. reflexivity. Qed.
-Lemma sid_sg : forall p n, sid p (SG n) = n. Proof. reflexivity. Qed.
-Lemma sid_sp0 : forall p, sid p (SP 0) = nls p. Proof. intros. unfold sid, PBASE, nls. lia. Qed.
-Lemma sid_sp1 : forall p, sid p (SP 1) = nss p. Proof. intros. unfold sid, PBASE, nss. lia. Qed.
 Opaque nls nss sid.
 
-(* ------------------------------------------------------------------ weights by (call, pc) *)
-Local Open Scope nat_scope.
-(* holds a capacity token for a message that is neither buffered nor in the pipe:
-   put between the semaphore acquire and the buffer append, feeder between pop and send,
-   get between receive and semaphore release *)
-Definition w_tr (c p : nat) : Z :=
-  match c, p with
-  | 0, 3 => 1%Z
-  | 3, (3|6) => 1%Z
-  | 2, (10|11|14) => 1%Z       (* 14: about to give back the token of the object it could not serialise *)
-  | 1, (4|5|24) => 1%Z
-  | _, _ => 0%Z
-  end.
-Definition w_rl (c p : nat) : Z :=          (* holds the reader lock *)
-  match c, p with
-  | 1, (3|4|12|14|16|19|21|23|24|25) => 1%Z
-  | _, _ => 0%Z
-  end.
-Definition w_wl (c p : nat) : Z :=          (* holds the writer lock *)
-  match c, p with
-  | 2, (11|12) => 1%Z
-  | _, _ => 0%Z
-  end.
-(* JoinableQueue's count of unfinished tasks: a put past its _unfinished_tasks.release() and not
-   yet returned; a task_done past its successful _unfinished_tasks.acquire(False) *)
-Definition w_pc (c p : nat) : Z :=
-  match c, p with
-  | 3, (12|13|14) => 1%Z
-  | _, _ => 0%Z
-  end.
-Definition w_dc (c p : nat) : Z :=
-  match c, p with
-  | 4, (5|8|10|12|16|18|24|27|30) => 1%Z
-  | _, _ => 0%Z
-  end.
-Definition w_nl (c p : nat) : Z :=          (* holds the lock of its process's _notempty *)
-  match c, p with
-  | 0, (10|11) => 1%Z
-  | 3, (6|9|12|13|14) => 1%Z
-  | 2, (3|7) => 1%Z
-  | _, _ => 0%Z
-  end.
-Local Close Scope nat_scope.
-
-Definition qt_tr (t : qthread) : Z := if qfin t then 0 else w_tr (qcid t) (qpc t).
-Definition qt_rl (t : qthread) : Z := if qfin t then 0 else w_rl (qcid t) (qpc t).
-Definition qt_wl (t : qthread) : Z := if qfin t then 0 else w_wl (qcid t) (qpc t).
-Definition qt_nl (p : nat) (t : qthread) : Z :=
-  if qfin t then 0 else if Nat.eqb (qproc t) p then w_nl (qcid t) (qpc t) else 0.
-(* the message a feeder has popped and not yet sent (pc 14: and will not send: it could not be
-   serialised and is dropped) *)
-Definition ftr (t : qthread) : list Z :=
-  if qfin t then [] else
-  match qcid t, qpc t with
-  | 2%nat, (10%nat | 11%nat | 14%nat) => [r2 (qrg t)]
-  | _, _ => []
-  end.
-
-Fixpoint zcnt (m : Z) (l : list Z) : Z :=
-  match l with [] => 0 | x :: r => (if x =? m then 1 else 0) + zcnt m r end.
-(* the message a get has received and not yet returned (between its receive and its return the
-   only steps left are the two releases, which cannot fail: see qstep_inv) *)
-Definition gheld (t : qthread) : list Z :=
-  if qfin t then [] else
-  match qcid t, qpc t with
-  | 1%nat, (4%nat | 5%nat | 24%nat | 25%nat) => [r4 (qrg t)]
-  | _, _ => []
-  end.
-(* how many of the finished get calls of a thread returned m *)
-Fixpoint rcount (m : Z) (res : list (qcall * Z)) : Z :=
-  match res with
-  | [] => 0
-  | (c, v) :: r => (if Nat.eqb (fst (fst (fst c))) 1 && (v =? m) then 1 else 0) + rcount m r
-  end.
-(* finished JoinableQueue.put calls that returned (did not raise Full); finished task_done calls
-   that did not raise ValueError("task_done() called too many times") *)
-Fixpoint pcount (res : list (qcall * Z)) : Z :=
-  match res with
-  | [] => 0
-  | (c, v) :: r => (if Nat.eqb (fst (fst (fst c))) 3 && (v =? V_NONE) then 1 else 0) + pcount r
-  end.
-Fixpoint dcount (res : list (qcall * Z)) : Z :=
-  match res with
-  | [] => 0
-  | (c, v) :: r => (if Nat.eqb (fst (fst (fst c))) 4 && negb (v =? E_VALUE) then 1 else 0) + dcount r
-  end.
-(* contribution of a thread to the number of unfinished tasks: puts counted - task_dones counted *)
-Definition qw_unf (t : qthread) : Z := if qfin t then 0 else w_pc (qcid t) (qpc t) - w_dc (qcid t) (qpc t).
-Definition qt_unf (t : qthread) : Z := pcount (qresults t) - dcount (qresults t) + qw_unf t.
-Lemma qt_unf_eq : forall t, qt_unf t = pcount (qresults t) - dcount (qresults t) + qw_unf t.
-Proof. reflexivity. Qed.
-Definition qt_ret (m : Z) (t : qthread) : Z := rcount m (qresults t) + zcnt m (gheld t).
-
-(* ------------------------------------------------------------------ per-thread invariant *)
-Definition okq (c : qcall) : Prop :=
-  let id := fst (fst (fst c)) in id = 0%nat \/ id = 1%nat \/ id = 3%nat \/ id = 4%nat \/ id = 5%nat.
-
-Definition a2_of (c : qcall) : Z := snd c.
-
-Local Open Scope nat_scope.
-Definition qli_pc (c p : nat) (r : regs) (a2 : Z) (h4 : Z) : Prop :=
-  match c, p with
-  | 0, (0|3|10|11) => r2 r = a2
-  | 1, (2|3|4|5|8|12|14|16|19|21|23|24|25) => True
-  | 2, (0|3|4|5|7|12) => True
-  | 2, (10|11) => picklable (r2 r) = true   (* what a feeder is about to write could be serialised *)
-  | 2, 14 => picklable (r2 r) = false       (* what a feeder drops could not *)
-  | 3, (0|3|6) => r2 r = a2
-  | 3, (9|12|13) => (1 <= h4)%Z
-  | 3, 14 => True
-  | 4, 0 => True
-  | 4, (1|3|5|8|10|12|16|18|24|27|30) => (1 <= h4)%Z
-  | 5, (0|1|4|8|11|12|15|19) => True
-  | _, _ => False
-  end.
-Local Close Scope nat_scope.
-
-Definition QLI (t : qthread) : Prop :=
-  0 <= nth 4 (qheld t) 0 /\
-  if qfeeder t then qfin t = false /\ qcid t = 2%nat /\ qscript t = [] /\
-                    qli_pc 2 (qpc t) (qrg t) 0 0
-  else Forall okq (qscript t) /\
-       (qfin t = false -> okq (qcur t) /\
-                          qli_pc (qcid t) (qpc t) (qrg t) (a2_of (qcur t)) (nth 4 (qheld t) 0)).
-
-(* ------------------------------------------------------------------ global invariant *)
-Definition QSVM : Z := 2147483647.
-Definition qv (s : nat) (g : qsys) : Z := val (nth s (qsems g) dsem).
-Definition blen (ps : pstate) : Z := Z.of_nat (length (buf ps)).
-(* the messages of a tagged send log that were written by the feeder of process p, in order *)
-Definition from_proc (p : nat) (l : list (nat * Z)) : list Z :=
-  map snd (filter (fun x => Nat.eqb (fst x) p) l).
-(* the messages of a list that can be serialised, in order *)
-Definition pk (l : list Z) : list Z := filter picklable l.
-Lemma pk_nil : pk [] = []. Proof. reflexivity. Qed.
-Lemma pk_app : forall a b, pk (a ++ b) = pk a ++ pk b. Proof. intros. apply filter_app. Qed.
-Lemma pk_cons_true : forall m l, picklable m = true -> pk (m :: l) = m :: pk l.
-Proof. intros m l H. unfold pk. cbn [filter]. rewrite H. reflexivity. Qed.
-Lemma pk_cons_false : forall m l, picklable m = false -> pk (m :: l) = pk l.
-Proof. intros m l H. unfold pk. cbn [filter]. rewrite H. reflexivity. Qed.
-Definition dqt : qthread := mkQT 0 false (0%nat, 0, 0, 0) 0 (qinit_regs 0 0 0) [] [] [] true.
-
-Definition qshape (M : Z) (n : nat) (ss : list sem) : Prop :=
-  maxv (nth 0 ss dsem) = M /\ recur (nth 0 ss dsem) = false /\
-  (forall s, (s = 1 \/ s = 2)%nat -> maxv (nth s ss dsem) = 1 /\ recur (nth s ss dsem) = false) /\
-  (forall s, (s = 3 \/ s = 5 \/ s = 6 \/ s = 7)%nat -> maxv (nth s ss dsem) = QSVM /\ recur (nth s ss dsem) = false) /\
-  recur (nth 4 ss dsem) = true /\
-  (forall p, (p < n)%nat -> maxv (nth (nls p) ss dsem) = 1 /\ recur (nth (nls p) ss dsem) = false /\
-                            maxv (nth (nss p) ss dsem) = QSVM /\ recur (nth (nss p) ss dsem) = false).
-
-Record QInv (M : Z) (g : qsys) : Prop := mkQInv {
-  q_shape : qshape M (length (procs g)) (qsems g);
-  q_len : length (qthr g) = (2 * length (procs g))%nat;
-  q_wf : forall i t, nth_error (qthr g) i = Some t -> qproc t = Nat.div2 i /\ qfeeder t = Nat.odd i;
-  q_li : forall t, In t (qthr g) -> QLI t;
-  q_cap : qv 0 g + sumz blen (procs g) + Z.of_nat (length (pipe g)) + sumz qt_tr (qthr g) = M;
-  q_cap0 : 0 <= qv 0 g;
-  q_rl : qv 1 g + sumz qt_rl (qthr g) = 1 /\ 0 <= qv 1 g;
-  q_wl : qv 2 g + sumz qt_wl (qthr g) = 1 /\ 0 <= qv 2 g;
-  q_nl : forall p, (p < length (procs g))%nat ->
-                   qv (nls p) g + sumz (qt_nl p) (qthr g) = 1 /\ 0 <= qv (nls p) g;
-  q_fifo : forall p, pk (plog (nth p (procs g) dps)) =
-                     slog (nth p (procs g) dps) ++ pk (ftr (nth (2 * p + 1) (qthr g) dqt)) ++ pk (buf (nth p (procs g) dps));
-  q_pipe : map snd (sendlog g) = getlog g ++ pipe g;
-  q_merge : forall m, zcnt m (map snd (sendlog g)) = sumz (fun ps => zcnt m (slog ps)) (procs g);
-  q_order : forall p, from_proc p (sendlog g) = slog (nth p (procs g) dps);
-  q_ret : forall m, m <> E_EMPTY -> zcnt m (getlog g) = sumz (qt_ret m) (qthr g);
-  q_unf : qv 3 g = sumz qt_unf (qthr g) /\ 0 <= qv 3 g
-}.
-
-(* the counters stay below SEM_VALUE_MAX *)
-Definition qsmall (g : qsys) : Prop :=
-  qv 3 g < QSVM /\ qv 5 g < QSVM /\ qv 6 g < QSVM /\ qv 7 g < QSVM /\
-  forall p, qv (nss p) g < QSVM.
-
-Transparent updp upd.
-Lemma nth_updp_same : forall l i v, nth i (updp l i v) dps = v.
-Proof. intros l i; revert l; induction i as [|i IH]; intros [|x l] v; cbn; auto. Qed.
-
-Lemma nth_updp_other : forall l i j v, i <> j -> nth j (updp l i v) dps = nth j l dps.
-Proof.
-  intros l i; revert l; induction i as [|i IH]; intros [|x l] [|j] v Hne; cbn; auto; try congruence.
-  - destruct j; reflexivity.
-  - rewrite IH by congruence. destruct j; reflexivity.
-Qed.
-
-Lemma length_updp : forall l i v, (i < length l)%nat -> length (updp l i v) = length l.
-Proof.
-  intros l i; revert l; induction i as [|i IH]; intros [|x l] v H; cbn in *; try lia.
-  rewrite IH; lia.
-Qed.
-
-Lemma sumz_updp : forall (f : pstate -> Z) l i v, (i < length l)%nat ->
-    sumz f (updp l i v) = sumz f l - f (nth i l dps) + f v.
-Proof.
-  intros f l i; revert l; induction i as [|i IH]; intros [|x l] v H; cbn in *; try lia.
-  rewrite IH by lia. lia.
-Qed.
-
-Lemma nth_upd_same : forall A (l : list A) i v d, (i < length l)%nat -> nth i (upd l i v) d = v.
-Proof. induction l as [|x l IH]; intros [|i] v d H; cbn in *; try lia; auto. apply IH; lia. Qed.
-
-Lemma nth_upd_other : forall A (l : list A) i j v d, i <> j -> nth j (upd l i v) d = nth j l d.
-Proof. induction l as [|x l IH]; intros [|i] [|j] v d H; cbn; auto; try congruence. Qed.
-Opaque updp upd.
-
-Lemma zcnt_app : forall m a b, zcnt m (a ++ b) = zcnt m a + zcnt m b.
-Proof. induction a as [|x a IH]; intros b; cbn; [lia|]. rewrite IH. lia. Qed.
-
-Ltac dn x n := match n with O => idtac | S ?m => destruct x as [|x]; [|dn x m] end.
-
-Lemma qw_01 : forall c p, 0 <= w_tr c p <= 1 /\ 0 <= w_rl c p <= 1 /\ 0 <= w_wl c p <= 1 /\ 0 <= w_nl c p <= 1.
-Proof. intros c p. dn c 6%nat; dn p 26%nat; cbn; lia. Qed.
-
-Lemma qt_01 : forall t, 0 <= qt_tr t <= 1 /\ 0 <= qt_rl t <= 1 /\ 0 <= qt_wl t <= 1 /\ forall q, 0 <= qt_nl q t <= 1.
-Proof.
-  intros t. unfold qt_tr, qt_rl, qt_wl, qt_nl. destruct (qfin t); [repeat split; intros; lia|].
-  destruct (qw_01 (qcid t) (qpc t)) as (A & B & C & D). repeat split; try lia; intros; destruct (Nat.eqb (qproc t) q); lia.
-Qed.
-
-Ltac qsimp0 :=
-  cbn [qlocal nth_error qcode p_q_put p_q_get p_feed p_jq_put p_jq_task_done p_jq_join
-       p_sq_put p_sq_get getr setr rvv flagv qinit_regs r0 r1 r2 r3 r4 r5 r6 r7
-       qproc qfeeder qcur qpc qrg qheld qscript qresults qfin qcid fst snd negb andb orb QFUEL
-       buf nw started plog slog]; rewrite ?sid_sg, ?sid_sp0, ?sid_sp1.
-Ltac qsimp := cbn [qadvance qabort]; qsimp0.
-Ltac qsimp_in H :=
-  cbn [qadvance qabort qlocal nth_error qcode p_q_put p_q_get p_feed p_jq_put p_jq_task_done p_jq_join
-       p_sq_put p_sq_get getr setr rvv flagv qinit_regs r0 r1 r2 r3 r4 r5 r6 r7
-       qproc qfeeder qcur qpc qrg qheld qscript qresults qfin qcid fst snd negb andb orb QFUEL
-       buf nw started plog slog] in H; rewrite ?sid_sg, ?sid_sp0, ?sid_sp1 in H.
-Ltac qsimpw :=
-  cbn [qt_tr qt_rl qt_wl qt_nl ftr w_tr w_rl w_wl w_nl r0 r1 r2 r3 r4 r5 r6 r7
-       qproc qfeeder qcur qpc qrg qheld qscript qresults qfin qcid fst snd val set_val maxv recur
-       buf nw started plog slog blen a2_of] in *.
-
-Definition landed (t : qthread) : Prop :=
-  qt_tr t = 0 /\ qt_rl t = 0 /\ qt_wl t = 0 /\ (forall q, qt_nl q t = 0) /\ ftr t = [] /\ gheld t = [] /\ qw_unf t = 0.
-
-Ltac landed_tac p :=
-  unfold QLI, landed, qt_tr, qt_rl, qt_wl, qt_nl, ftr, gheld, qw_unf, okq, a2_of; qsimp0;
-  cbn [w_tr w_rl w_wl w_nl w_pc w_dc qli_pc nth];
-  repeat split; auto; intros; try lia; try discriminate;
-  try (destruct (Nat.eqb p _); reflexivity).
-
-Lemma qstart_facts : forall sc p h res ps,
-    Forall okq sc -> 0 <= nth 4 h 0 ->
-    exists t, qstart qcode p false h res sc ps = (t, ps) /\
-              QLI t /\ qproc t = p /\ qfeeder t = false /\ landed t /\ qresults t = res.
-Proof.
-  intros [|[[[c a0] a1] a2] sc] p h res ps Hsc Hh.
-  - eexists. split; [reflexivity|]. landed_tac p.
-  - inversion Hsc as [|x l Hc Hsc']; subst. unfold okq in Hc; cbn [fst snd] in Hc.
-    cbn [qstart].
-    destruct Hc as [E|[E|[E|[E|E]]]]; subst c.
-    + qsimp0. eexists. split; [reflexivity|]. landed_tac p.
-    + qsimp0. destruct (a1 =? 0) eqn:E1; [|destruct (a0 =? 0) eqn:E0];
-        (eexists; split; [reflexivity|]); landed_tac p.
-    + qsimp0. eexists. split; [reflexivity|]. landed_tac p.
-    + qsimp0. eexists. split; [reflexivity|]. landed_tac p.
-    + qsimp0. eexists. split; [reflexivity|]. landed_tac p.
-Qed.
-
-Lemma qshape_upds : forall M n ss s sm', qshape M n ss ->
-    maxv sm' = maxv (nth s ss dsem) -> recur sm' = recur (nth s ss dsem) -> qshape M n (upds ss s sm').
-Proof.
-  intros M n ss s sm' (A & B & C & D & E & F) Hm Hr.
-  assert (G : forall k, maxv (nth k (upds ss s sm') dsem) = maxv (nth k ss dsem) /\
-                        recur (nth k (upds ss s sm') dsem) = recur (nth k ss dsem)).
-  { intros k. destruct (Nat.eq_dec s k) as [Ek|Ek].
-    - subst. rewrite nth_upds_same. auto.
-    - rewrite nth_upds_other by auto. auto. }
-  unfold qshape.
-  split; [rewrite (proj1 (G _)); auto|]. split; [rewrite (proj2 (G _)); auto|].
-  split; [intros k Hk; rewrite (proj1 (G k)), (proj2 (G k)); auto|].
-  split; [intros k Hk; rewrite (proj1 (G k)), (proj2 (G k)); auto|].
-  split; [rewrite (proj2 (G _)); auto|].
-  intros p Hp. rewrite (proj1 (G (nls p))), (proj2 (G (nls p))), (proj1 (G (nss p))), (proj2 (G (nss p))). auto.
-Qed.
-
-Lemma div2_odd_idx : forall i, i = (2 * Nat.div2 i + (if Nat.odd i then 1 else 0))%nat.
-Proof. intros i. pose proof (Nat.div2_odd i). destruct (Nat.odd i); cbn [Nat.b2n] in *; lia. Qed.
-
-Lemma qinv_upd : forall M g i t t' ps' ss' pp sl gl,
-    QInv M g -> nth_error (qthr g) i = Some t ->
-    qproc t' = qproc t -> qfeeder t' = qfeeder t ->
-    qshape M (length (procs g)) ss' -> QLI t' ->
-    val (nth 0 ss' dsem) + (sumz blen (procs g) - blen (nth (qproc t) (procs g) dps) + blen ps')
-      + Z.of_nat (length pp) + (sumz qt_tr (qthr g) - qt_tr t + qt_tr t') = M ->
-    0 <= val (nth 0 ss' dsem) ->
-    (val (nth 1 ss' dsem) + (sumz qt_rl (qthr g) - qt_rl t + qt_rl t') = 1 /\ 0 <= val (nth 1 ss' dsem)) ->
-    (val (nth 2 ss' dsem) + (sumz qt_wl (qthr g) - qt_wl t + qt_wl t') = 1 /\ 0 <= val (nth 2 ss' dsem)) ->
-    (val (nth (nls (qproc t)) ss' dsem)
-       + (sumz (qt_nl (qproc t)) (qthr g) - qt_nl (qproc t) t + qt_nl (qproc t) t') = 1
-     /\ 0 <= val (nth (nls (qproc t)) ss' dsem)) ->
-    (forall q, q <> qproc t -> nth (nls q) ss' dsem = nth (nls q) (qsems g) dsem) ->
-    pk (plog ps') = slog ps' ++ pk (ftr (if Nat.odd i then t' else nth (2 * qproc t + 1) (qthr g) dqt)) ++ pk (buf ps') ->
-    map snd sl = gl ++ pp ->
-    (forall m, zcnt m (map snd sl) = sumz (fun ps => zcnt m (slog ps)) (procs g)
-                           - zcnt m (slog (nth (qproc t) (procs g) dps)) + zcnt m (slog ps')) ->
-    (forall q, from_proc q sl = slog (nth q (updp (procs g) (qproc t) ps') dps)) ->
-    (forall m, m <> E_EMPTY -> zcnt m gl = sumz (qt_ret m) (qthr g) - qt_ret m t + qt_ret m t') ->
-    (val (nth 3 ss' dsem) = sumz qt_unf (qthr g) - qt_unf t + qt_unf t' /\ 0 <= val (nth 3 ss' dsem)) ->
-    QInv M (mkQS ss' (upd (qthr g) i t') pp (updp (procs g) (qproc t) ps') sl gl).
-Proof.
-  intros M g i t t' ps' ss' pp sl gl HI Ht Hp Hfd Hsh Hli Hcap Hcap0 Hrl Hwl Hnl Hnlo Hfifo Hpipe Hmerge Horder Hret Hunf.
-  pose proof (q_wf M g HI i t Ht) as [Wp Wf].
-  assert (Hi : (i < length (qthr g))%nat) by (apply nth_error_Some; congruence).
-  assert (Hpl : (qproc t < length (procs g))%nat).
-  { pose proof (q_len M g HI). pose proof (div2_odd_idx i). rewrite Wp. destruct (Nat.odd i); lia. }
-  constructor; cbn [qsems qthr pipe procs sendlog getlog]; unfold qv; cbn [qsems];
-    rewrite ?length_upd, ?length_updp by auto.
-  - exact Hsh.
-  - apply (q_len M g HI).
-  - intros j u Hu. destruct (nth_error_upd_inv _ _ _ _ _ _ Hu) as [[E1 E2]|[E1 E2]].
-    + subst j u. rewrite Hp, Hfd. auto.
-    + apply (q_wf M g HI j u E2).
-  - intros u Hu. destruct (In_upd _ _ _ _ _ Hu) as [Eu|Eu]; [subst u; auto|apply (q_li M g HI); auto].
-  - rewrite (sumz_upd _ _ _ _ _ _ Ht), sumz_updp by auto. exact Hcap.
-  - exact Hcap0.
-  - rewrite (sumz_upd _ _ _ _ _ _ Ht). exact Hrl.
-  - rewrite (sumz_upd _ _ _ _ _ _ Ht). exact Hwl.
-  - intros q Hq. rewrite (sumz_upd _ _ _ _ _ _ Ht).
-    destruct (Nat.eq_dec q (qproc t)) as [E|E].
-    + subst q. exact Hnl.
-    + rewrite (Hnlo q E). pose proof (q_nl M g HI q Hq) as [A B]. unfold qv in A, B.
-      unfold qt_nl at 2 3. rewrite Hp.
-      replace (Nat.eqb (qproc t) q) with false by (symmetry; apply Nat.eqb_neq; auto).
-      destruct (qfin t), (qfin t'); split; lia.
-  - intros q. destruct (Nat.eq_dec q (qproc t)) as [E|E].
-    + subst q. rewrite nth_updp_same.
-      destruct (Nat.odd i) eqn:Eo.
-      * assert (Ei : i = (2 * qproc t + 1)%nat) by (pose proof (div2_odd_idx i); rewrite Eo in *; lia).
-        rewrite <- Ei. rewrite nth_upd_same by auto. exact Hfifo.
-      * assert (Ei : i = (2 * qproc t)%nat) by (pose proof (div2_odd_idx i); rewrite Eo in *; lia).
-        rewrite nth_upd_other by lia. exact Hfifo.
-    + rewrite nth_updp_other by auto.
-      assert (Ei : i <> (2 * q + 1)%nat).
-      { pose proof (div2_odd_idx i). destruct (Nat.odd i); lia. }
-      rewrite nth_upd_other by auto. apply (q_fifo M g HI q).
-  - exact Hpipe.
-  - intros m. rewrite sumz_updp by auto. apply Hmerge.
-  - exact Horder.
-  - intros m Hm. rewrite (sumz_upd _ _ _ _ _ _ Ht). apply Hret; auto.
-  - rewrite (sumz_upd _ _ _ _ _ _ Ht). exact Hunf.
-Qed.
-
-Lemma order_keep : forall g p ps',
-    (forall q, from_proc q (sendlog g) = slog (nth q (procs g) dps)) ->
-    slog ps' = slog (nth p (procs g) dps) ->
-    forall q, from_proc q (sendlog g) = slog (nth q (updp (procs g) p ps') dps).
-Proof.
-  intros g p ps' H E q. destruct (Nat.eq_dec p q) as [Eq|Eq].
-  - subst q. rewrite nth_updp_same, E. apply H.
-  - rewrite nth_updp_other by auto. apply H.
-Qed.
-
-Lemma order_send : forall g p ps' m,
-    (forall q, from_proc q (sendlog g) = slog (nth q (procs g) dps)) ->
-    slog ps' = slog (nth p (procs g) dps) ++ [m] ->
-    forall q, from_proc q (sendlog g ++ [(p, m)]) = slog (nth q (updp (procs g) p ps') dps).
-Proof.
-  intros g p ps' m H E q. unfold from_proc. rewrite filter_app, map_app. cbn [filter fst].
-  destruct (Nat.eq_dec p q) as [Eq|Eq].
-  - subst q. rewrite nth_updp_same, E, Nat.eqb_refl. cbn [map snd]. f_equal. apply H.
-  - rewrite nth_updp_other by auto. replace (Nat.eqb p q) with false by (symmetry; apply Nat.eqb_neq; auto).
-    cbn [map]. rewrite app_nil_r. apply H.
-Qed.
-
-
-Lemma blen_mk : forall b n s p l, blen (mkP b n s p l) = Z.of_nat (length b).
-Proof. reflexivity. Qed.
-
-Ltac qgoalw :=
-  cbn [qt_tr qt_rl qt_wl qt_nl ftr w_tr w_rl w_wl w_nl r0 r1 r2 r3 r4 r5 r6 r7
-       qproc qfeeder qcur qpc qrg qheld qscript qresults qfin qcid fst snd val set_val maxv recur
-       buf nw started plog slog blen a2_of length].
-
-Ltac qside := lia.    (* the context carries nls p = 8 + 2p and nss p = 9 + 2p *)
-
-Ltac qret_tac Iret :=
-  let m := fresh "m" in let Hm := fresh "Hm" in
-  intros m Hm; unfold E_EMPTY in Hm; rewrite ?zcnt_app, <- (Iret m Hm); unfold qt_ret;
-  repeat match goal with E : qresults ?t = _ |- context [qresults ?t] => rewrite E
-                    | E : gheld ?t = [] |- context [gheld ?t] => rewrite E end;
-  cbn [rcount gheld zcnt qfin qcid qpc qcur qrg qresults fst snd r4 Nat.eqb andb];
-  repeat match goal with |- context [if ?b then _ else _] => destruct b eqn:? end; lia.
-
-Ltac qunf_tac :=
-  rewrite !qt_unf_eq;
-  repeat match goal with
-         | E : qresults ?t = _ |- context [qresults ?t] => rewrite E
-         | E : qw_unf ?t = 0 |- context [qw_unf ?t] => rewrite E
-         end;
-  cbn [qw_unf pcount dcount qfin qcid qpc qcur qresults fst snd w_pc w_dc Nat.eqb andb negb];
-  unfold V_NONE, E_VALUE, E_ASSERT, E_FULL, E_EMPTY;
-  repeat match goal with |- context [if ?b then _ else _] =>
-    first [ let v := eval vm_compute in b in lazymatch v with true => change b with true | false => change b with false end
-          | destruct b eqn:? ] end;
-  split; lia.
-
-Ltac qprem HI Wf Eps Imerge Hh4 Ififo Ipipe Iorder Iret :=
-  cbn [qproc qfeeder]; rewrite <- ?Wf, <- ?Eps;
-  rewrite ?nth_upds_same; rewrite ?nth_upds_other by qside;
-  qgoalw; rewrite ?Nat.eqb_refl; cbn [Nat.odd];
-  first
-    [ reflexivity
-    | assumption
-    | lia
-    | split; lia
-    | exact (q_shape _ _ HI)
-    | apply qshape_upds; [exact (q_shape _ _ HI) | reflexivity | reflexivity]
-    | (intros q Hq; pose proof (nls_eq q); pose proof (nss_eq q); rewrite ?nth_upds_other by lia; reflexivity)
-    | (intros m; rewrite ?map_app, ?zcnt_app, (Imerge m); cbn [map snd zcnt]; lia)
-    | (apply order_keep; [exact Iorder | rewrite <- Eps; reflexivity])
-    | (apply order_send; [exact Iorder | rewrite <- Eps; reflexivity])
-    | qret_tac Iret
-    | qunf_tac
-    | match goal with |- QLI _ =>
-        unfold QLI; qgoalw; cbn [qli_pc]; rewrite ?nth_updz_same, ?nth_updz_other by qside;
-        repeat split; auto; try lia; try discriminate; try (unfold okq; cbn [fst snd]; lia) end
-    | (rewrite ?blen_mk in *; cbn [length] in *; rewrite ?app_length; cbn [length]; lia)
-    | (try (match goal with E : picklable ?m = true |- _ =>
-              rewrite ?(pk_cons_true m _ E) in Ififo; rewrite ?(pk_cons_true m _ E) end);
-       try (match goal with E : picklable ?m = false |- _ =>
-              rewrite ?(pk_cons_false m _ E) in Ififo; rewrite ?(pk_cons_false m _ E) end);
-       rewrite ?pk_nil in Ififo; rewrite ?pk_nil; rewrite ?pk_app, ?Ififo, <- ?app_assoc; cbn [app]; reflexivity)
-    | (rewrite ?map_app, ?Ipipe, <- ?app_assoc; cbn [app map snd]; reflexivity)
-    | idtac ].
-
-Ltac qabstract_thread :=
-  repeat match goal with
-   | E : qproc ?t = _ |- context [qproc ?t] => rewrite E
-   | E : qfeeder ?t = _ |- context [qfeeder ?t] => rewrite E
-   | E : qt_tr ?t = 0 |- context [qt_tr ?t] => rewrite E
-   | E : qt_rl ?t = 0 |- context [qt_rl ?t] => rewrite E
-   | E : qt_wl ?t = 0 |- context [qt_wl ?t] => rewrite E
-   | E : ftr ?t = [] |- context [ftr ?t] => rewrite E
-   | E : forall q, qt_nl q ?t = 0 |- context [qt_nl _ ?t] => rewrite E
-   end.
-
-(* THE step lemma: capacity accounting, the three lock invariants, per-producer FIFO between
-   put and pipe, FIFO of the pipe and the merge property are inductive; in particular no
-   release of the capacity semaphore or of a lock raises. *)
-
-Ltac qdestr_H H :=
-  repeat match type of H with
-         | context [if ?b then _ else _] => destruct b eqn:?
-         | context [match ?x with _ => _ end] => destruct x eqn:?
-         end.
-Ltac split_all := repeat match goal with H : _ /\ _ |- _ => destruct H end.
-
-Lemma qstep_inv : forall M g i go g' e, QInv M g -> qsmall g -> qstep qcode g i go = Some (g', e) -> QInv M g'.
-Proof.
-  intros M g i go g' e HI Hsm H.
-  assert (Hex : exists t, nth_error (qthr g) i = Some t).
-  { unfold qstep in H. destruct (nth_error (qthr g) i); [eauto|discriminate]. }
-  destruct Hex as [t Ht].
-  pose proof (q_li M g HI t (nth_error_In _ _ Ht)) as Hli.
-  pose proof (q_wf M g HI i t Ht) as [Wp Wf].
-  assert (Hi : (i < length (qthr g))%nat) by (apply nth_error_Some; congruence).
-  assert (Hpl : (qproc t < length (procs g))%nat).
-  { pose proof (q_len M g HI). pose proof (div2_odd_idx i). rewrite Wp. destruct (Nat.odd i); lia. }
-  destruct (q_shape M g HI) as (Sh0m & Sh0r & Sh12 & Sh3567 & Sh4 & ShP).
-  destruct (Sh12 1%nat ltac:(auto)) as [Hm1 Hr1]. destruct (Sh12 2%nat ltac:(auto)) as [Hm2 Hr2].
-  destruct (Sh3567 3%nat ltac:(auto)) as [Hm3 Hr3]. destruct (Sh3567 5%nat ltac:(auto)) as [Hm5 Hr5].
-  destruct (Sh3567 6%nat ltac:(auto)) as [Hm6 Hr6]. destruct (Sh3567 7%nat ltac:(auto)) as [Hm7 Hr7].
-  destruct (ShP (qproc t) Hpl) as (Hm8 & Hr8 & Hm9 & Hr9).
-  pose proof (q_cap M g HI) as Icap. pose proof (q_cap0 M g HI) as Icap0.
-  pose proof (q_rl M g HI) as [Irl Irl0]. pose proof (q_wl M g HI) as [Iwl Iwl0].
-  pose proof (q_nl M g HI (qproc t) Hpl) as [Inl Inl0].
-  pose proof (q_fifo M g HI (qproc t)) as Ififo. pose proof (q_pipe M g HI) as Ipipe.
-  pose proof (q_merge M g HI) as Imerge. pose proof (q_order M g HI) as Iorder.
-  pose proof (q_ret M g HI) as Iret. pose proof (q_unf M g HI) as [Iunf Iunf0].
-  destruct Hsm as (Hs3 & Hs5 & Hs6 & Hs7 & Hs9). specialize (Hs9 (qproc t)).
-  pose proof (nls_eq (qproc t)) as Enl. pose proof (nss_eq (qproc t)) as Ens.
-  unfold qv, QSVM in *.
-  assert (Gtr : qt_tr t <= sumz qt_tr (qthr g)) by (eapply sumz_ge_elem; eauto; intros; apply qt_01).
-  assert (Grl : qt_rl t <= sumz qt_rl (qthr g)) by (eapply sumz_ge_elem; eauto; intros; apply qt_01).
-  assert (Gwl : qt_wl t <= sumz qt_wl (qthr g)) by (eapply sumz_ge_elem; eauto; intros; apply qt_01).
-  assert (Gnl : qt_nl (qproc t) t <= sumz (qt_nl (qproc t)) (qthr g)) by (eapply sumz_ge_elem; eauto; intros; apply qt_01).
-  assert (Gb : 0 <= sumz blen (procs g)) by (apply sumz_nonneg; intros; unfold blen; apply Nat2Z.is_nonneg).
-  assert (Gbp : blen (nth (qproc t) (procs g) dps) <= sumz blen (procs g)).
-  { apply (sumz_ge_elem _ blen (procs g) (qproc t)); [intros; unfold blen; apply Nat2Z.is_nonneg|apply nth_error_nth'; auto]. }
-  assert (Gt0 : 0 <= sumz qt_tr (qthr g)) by (apply sumz_nonneg; intros; apply qt_01).
-  assert (Hnth : nth i (qthr g) dqt = t) by (apply nth_error_nth; auto).
-  assert (Hidx : i = (2 * qproc t + (if qfeeder t then 1 else 0))%nat) by (rewrite Wp, Wf; apply div2_odd_idx).
-  unfold qstep in H. rewrite Ht in H.
-  destruct (qfin t) eqn:Hf; [discriminate|].
-  destruct (qfeeder t && negb (started (nth (qproc t) (procs g) dps))); [discriminate|].
-  remember (nth (qproc t) (procs g) dps) as ps eqn:Eps.
-  destruct t as [p fd [[[c a0] a1] a2] pc [x0 x1 x2 x3 x4 x5 x6 x7] h sc rs f]. cbn [qfin] in Hf; subst f.
-  cbn [qproc qfeeder] in *.
-  unfold QLI in Hli; cbn [qfeeder qfin qscript qcur qcid qpc qrg qheld fst snd] in Hli.
-  destruct Hli as [Hh4 Hli].
-  unfold qcid in H; cbn [qcur fst qpc qrg qheld] in H.
-  destruct ps as [bf nwv stt pl sl0].
-  destruct fd.
-  - (* feeder *)
-    destruct Hli as (_ & Hc & Hsc & Hpc). unfold qcid in Hc; cbn [qcur fst] in Hc. subst c sc.
-    rewrite <- Hidx, Hnth in Ififo.
-    dn pc 16%nat; cbn [qli_pc] in Hpc; try contradiction.
-    all: qsimpw; rewrite ?Nat.eqb_refl in *.
-    all: qsimp_in H;
-      unfold sem_acq, sem_rel in H;
-      rewrite ?Hr1, ?Hr2, ?Hr3, ?Hr5, ?Hr6, ?Hr7, ?Hr8, ?Hr9, ?Sh0r, ?Sh4, ?Hm1, ?Hm2, ?Hm3, ?Hm5, ?Hm6, ?Hm7, ?Hm8, ?Hm9, ?Sh0m in H;
-      cbn [andb] in H; qdestr_H H; try discriminate.
-    all: clear Sh12 Sh3567 ShP Hr1 Hr2 Hr3 Hr5 Hr6 Hr7 Hr8 Hr9 Hm1 Hm2 Hm3 Hm5 Hm6 Hm7 Hm8 Hm9 Sh0r Sh4.
-    all: try (exfalso; lia).
-    all: inversion H; subst g' e; clear H.
-    all: unfold qadvance, qabort; qsimp0.
-    all: repeat match goal with |- context [match ?x with [] => _ | _ :: _ => _ end] => destruct x end; qsimp0.
-    all: repeat match goal with |- context [if picklable ?x then _ else _] => destruct (picklable x) eqn:? end; qsimp0.
-    all: unfold commit; cbn [qproc].
-
-    all: (eapply (qinv_upd _ _ _ _ _ _ _ _ _ _ HI Ht); qprem HI Wf Eps Imerge Hh4 Ififo Ipipe Iorder Iret).
-  - (* main thread *)
-    destruct Hli as [Hsc Hli]. destruct (Hli eq_refl) as [Hok Hpc]. clear Hli.
-    unfold okq in Hok; cbn [qcur fst snd] in Hok. unfold qcid, a2_of in Hpc; cbn [qcur fst snd] in Hpc.
-    cbn [Nat.add] in Hidx. rewrite Nat.add_0_r in Hidx.
-    set (tf := nth (2 * p + 1) (qthr g) dqt) in *.
-    destruct Hok as [E|[E|[E|[E|E]]]]; subst c.
-    all: dn pc 31%nat; cbn [qli_pc] in Hpc; try contradiction.
-    all: qsimpw; rewrite ?Nat.eqb_refl in *.
-    all: qsimp_in H;
-      unfold sem_acq, sem_rel in H;
-      rewrite ?Hr1, ?Hr2, ?Hr3, ?Hr5, ?Hr6, ?Hr7, ?Hr8, ?Hr9, ?Sh0r, ?Sh4, ?Hm1, ?Hm2, ?Hm3, ?Hm5, ?Hm6, ?Hm7, ?Hm8, ?Hm9, ?Sh0m in H;
-      cbn [andb] in H; qdestr_H H; try discriminate.
-    all: clear Sh12 Sh3567 ShP Hr1 Hr2 Hr3 Hr5 Hr6 Hr7 Hr8 Hr9 Hm1 Hm2 Hm3 Hm5 Hm6 Hm7 Hm8 Hm9 Sh0r Sh4.
-    all: try (exfalso; lia).
-    all: inversion H; subst g' e; clear H.
-    all: unfold qadvance, qabort; qsimp0.
-    all: repeat (match goal with |- context [if ?b then _ else _] =>
-        first [ let v := eval vm_compute in b in lazymatch v with true => change b with true | false => change b with false end
-              | destruct b eqn:? ] end; qsimp0).
-    all: unfold commit.
-    all: try match goal with |- context [qstart qcode ?p0 false ?h' ?res' ?sc' ?ps'] =>
-       let SF := fresh "SF" in
-       assert (SF : exists t, qstart qcode p0 false h' res' sc' ps' = (t, ps') /\ QLI t /\ qproc t = p0 /\ qfeeder t = false /\ landed t /\ qresults t = res')
-         by (apply qstart_facts; [exact Hsc | rewrite ?nth_updz_same, ?nth_updz_other by qside; lia]);
-       destruct SF as (t' & Est & Hli' & Hp' & Hf' & (L1 & L2 & L3 & L4 & L5 & L6 & L7) & Hres'); rewrite Est; cbv beta iota; rewrite ?Hp' end.
-    all: (eapply (qinv_upd _ _ _ _ _ _ _ _ _ _ HI Ht); qabstract_thread; qprem HI Wf Eps Imerge Hh4 Ififo Ipipe Iorder Iret).
-Qed.
 Lemma nth_proc_sems : forall n p, (p < n)%nat ->
     nth (2 * p) (proc_sems n) dsem = ctor_Lock /\ nth (2 * p + 1) (proc_sems n) dsem = ctor_Semaphore 0.
 Proof.
@@ -595,31 +43,52 @@ Lemma feeder_start : forall p ps, qstart qcode p true [] [] [(FEED, 0, 0, 0)] ps
     (mkQT p true (FEED, 0, 0, 0) 0 (qinit_regs 0 0 0) [] [] [] false, ps).
 Proof. intros. reflexivity. Qed.
 
-Lemma init_threads : forall scripts p, Forall (Forall okq) scripts ->
-    exists ts, qinit_threads qcode FEED p scripts = (ts, repeat dps (length scripts)) /\
+Transparent updp.
+Lemma updp_repeat_dps : forall n p, (p < n)%nat -> updp (repeat dps n) p dps = repeat dps n.
+Proof.
+  induction n as [|n IH]; intros p Hp; [lia|].
+  destruct p as [|p]; cbn [repeat updp]; [reflexivity|]. rewrite IH by lia. reflexivity.
+Qed.
+Opaque updp.
+
+(* the process of every pair is one of the n process states *)
+Definition own_ok (n : nat) (own : list nat) : Prop := forall q, (q < n)%nat -> (owner own q < n)%nat.
+
+Lemma own_ok_nil : forall n, own_ok n [].
+Proof. intros n q Hq. unfold owner. destruct q; exact Hq. Qed.
+
+Lemma init_threads : forall scripts own n q, Forall (Forall okq) scripts ->
+    (forall k, (k < length scripts)%nat -> (owner own (q + k) < n)%nat) ->
+    exists ts, qinit_threads qcode FEED q own scripts (repeat dps n) = (ts, repeat dps n) /\
                length ts = (2 * length scripts)%nat /\
                forall j t, nth_error ts j = Some t ->
-                           qproc t = (p + Nat.div2 j)%nat /\ qfeeder t = Nat.odd j /\ QLI t /\ landed t /\ qresults t = [].
+                           qproc t = owner own (q + Nat.div2 j) /\ qfeeder t = Nat.odd j /\ QLI t /\ landed t /\
+                           qresults t = [] /\ (qfeeder t = true -> qpc t = 0%nat) /\ tput t = [].
 Proof.
-  induction scripts as [|sc scripts IH]; intros p Hs.
+  induction scripts as [|sc scripts IH]; intros own n q Hs Hown.
   - exists []. split; [reflexivity|]. split; [reflexivity|]. intros [|j] t H; discriminate.
   - inversion Hs as [|x l Hsc Hs']; subst.
-    cbn [qinit_threads].
-    destruct (qstart_facts sc p [] [] dps Hsc ltac:(cbn; lia)) as (tm & Em & Lm & Pm & Fm & Dm).
-    rewrite Em, feeder_start.
-    destruct (IH (S p) Hs') as (ts & Et & Hl & Hall). rewrite Et.
+    cbn [qinit_threads]. rewrite nth_repeat_dps.
+    assert (Hp : (owner own q < n)%nat) by (specialize (Hown 0%nat ltac:(cbn; lia)); rewrite Nat.add_0_r in Hown; exact Hown).
+    destruct (qstart_facts sc (owner own q) [] [] dps Hsc ltac:(cbn; lia)) as (tm & Em & Lm & Pm & Fm & Dm).
+    rewrite Em, feeder_start, (updp_repeat_dps n _ Hp).
+    destruct (IH own n (S q) Hs') as (ts & Et & Hl & Hall).
+    { intros k Hk. replace (S q + k)%nat with (q + S k)%nat by lia. apply Hown. cbn [length]. lia. }
+    rewrite Et.
     eexists. split; [reflexivity|]. split; [cbn [length]; lia|].
     intros [|[|j]] t H; cbn [nth_error] in H.
-    + inversion H; subst t. cbn [Nat.div2 Nat.odd]. rewrite Nat.add_0_r. auto.
-    + inversion H; subst t. cbn [Nat.div2 Nat.odd qproc qfeeder]. rewrite Nat.add_0_r.
-      split; [reflexivity|]. split; [reflexivity|]. split; [|split; [|reflexivity]].
+    + inversion H; subst t. cbn [Nat.div2 Nat.odd]. rewrite Nat.add_0_r. destruct Dm as (D1 & D2 & D3).
+      split; [exact Pm|]. split; [exact Fm|]. split; [exact Lm|]. split; [exact D1|]. split; [exact D2|].
+      split; [intros E; congruence|]. unfold tput. rewrite D2, D3. reflexivity.
+    + inversion H; subst t. cbn [Nat.div2 Nat.odd qproc qfeeder qpc]. rewrite Nat.add_0_r.
+      split; [reflexivity|]. split; [reflexivity|]. split; [|split; [|split; [reflexivity|split; reflexivity]]].
       * unfold QLI; cbn [qheld qfeeder qfin qcid qcur fst qscript qpc qrg nth]. unfold FEED. cbn [qli_pc].
         repeat split; auto; lia.
       * unfold landed, qt_tr, qt_rl, qt_wl, qt_nl, ftr, gheld, qw_unf, FEED; cbn [qfin qcid qcur fst qpc qproc w_tr w_rl w_wl w_nl w_pc w_dc].
-        repeat split; auto. intros q. destruct (Nat.eqb p q); reflexivity.
-    + destruct (Hall j t H) as (A & B & C & D).
+        repeat split; auto. intros q0. destruct (Nat.eqb (owner own q) q0); reflexivity.
+    + destruct (Hall j t H) as (A & B & C).
       cbn [Nat.div2]. replace (Nat.odd (S (S j))) with (Nat.odd j) by (rewrite !Nat.odd_succ, Nat.even_succ; reflexivity).
-      split; [lia|auto].
+      split; [rewrite A; f_equal; lia|]. split; [exact B|exact C].
 Qed.
 Lemma sumz_repeat0 : forall (f : pstate -> Z) n, f dps = 0 -> sumz f (repeat dps n) = 0.
 Proof. intros f n H. induction n as [|n IH]; cbn; lia. Qed.
@@ -636,18 +105,20 @@ Proof.
   rewrite app_nth2_plus. destruct (nth_proc_sems n p Hp) as [A _]. rewrite A. reflexivity.
 Qed.
 
-Lemma qinv_init : forall M scripts, 0 <= M -> Forall (Forall okq) scripts -> QInv M (qinit M scripts).
+Lemma qinv_init : forall M own scripts, 0 <= M -> Forall (Forall okq) scripts -> own_ok (length scripts) own ->
+    QInv M own (qinit_own M own scripts).
 Proof.
-  intros M scripts HM Hs. unfold qinit, qinit_sys.
-  destruct (init_threads scripts 0 Hs) as (ts & Et & Hl & Hall). rewrite Et.
+  intros M own scripts HM Hs Hown. unfold qinit_own, qinit_sys.
+  destruct (init_threads scripts own (length scripts) 0 Hs) as (ts & Et & Hl & Hall); [intros k Hk; apply Hown; exact Hk|]. rewrite Et.
   assert (Hland : forall t, In t ts -> landed t).
   { intros t Ht. apply In_nth_error in Ht. destruct Ht as [j Hj]. destruct (Hall j t Hj) as (_ & _ & _ & L & _). exact L. }
   assert (Hres : forall t, In t ts -> qresults t = []).
-  { intros t Ht. apply In_nth_error in Ht. destruct Ht as [j Hj]. destruct (Hall j t Hj) as (_ & _ & _ & _ & L). exact L. }
+  { intros t Ht. apply In_nth_error in Ht. destruct Ht as [j Hj]. destruct (Hall j t Hj) as (_ & _ & _ & _ & L & _). exact L. }
   destruct (qworld_vals M (length scripts)) as (V0 & V1 & V2 & VP).
-  constructor; unfold qv; cbn [qsems qthr pipe procs sendlog getlog]; rewrite ?repeat_length.
+  constructor; unfold qv; cbn [qsems qthr pipe procs sendlog getlog]; rewrite ?repeat_length; rewrite ?nth_repeat_dps.
   - apply qworld_shape.
   - exact Hl.
+  - exact Hown.
   - intros i t Ht. destruct (Hall i t Ht) as (A & B & _). split; [rewrite A; reflexivity|exact B].
   - intros t Ht. apply In_nth_error in Ht. destruct Ht as [j Hj]. destruct (Hall j t Hj) as (_ & _ & L & _). exact L.
   - rewrite V0, sumz_repeat0 by reflexivity. rewrite (sumz_zero _ qt_tr) by (intros t Ht; apply (Hland t Ht)). cbn; lia.
@@ -655,10 +126,7 @@ Proof.
   - rewrite V1, (sumz_zero _ qt_rl) by (intros t Ht; apply (Hland t Ht)). lia.
   - rewrite V2, (sumz_zero _ qt_wl) by (intros t Ht; apply (Hland t Ht)). lia.
   - intros p Hp. rewrite (VP p Hp), (sumz_zero _ (qt_nl p)) by (intros t Ht; apply (Hland t Ht)). lia.
-  - intros p. rewrite nth_repeat_dps. cbn [plog slog buf dps]. rewrite pk_nil.
-    destruct (nth_error ts (2 * p + 1)) as [t|] eqn:E.
-    + rewrite (nth_error_nth _ _ dqt E). destruct (Hall _ _ E) as (_ & _ & _ & (_ & _ & _ & _ & F & _) & _). rewrite F. reflexivity.
-    + rewrite (nth_overflow ts dqt) by (apply nth_error_None; auto). reflexivity.
+  - intros p. rewrite nth_repeat_dps. reflexivity.
   - reflexivity.
   - intros m. rewrite sumz_repeat0 by reflexivity. reflexivity.
   - intros p. rewrite nth_repeat_dps. reflexivity.
@@ -667,6 +135,20 @@ Proof.
   - split; [|unfold qworld, queue_sems; cbn; lia].
     rewrite (sumz_zero _ qt_unf); [reflexivity|]. intros t Ht. rewrite qt_unf_eq, (Hres t Ht).
     destruct (Hland t Ht) as (_ & _ & _ & _ & _ & _ & L). rewrite L. reflexivity.
+  - intros p j Hj. rewrite nth_repeat_dps in Hj. destruct Hj.
+  - intros p. rewrite nth_repeat_dps. cbn. lia.
+  - intros j t Ht Hf _. destruct (Hall j t Ht) as (_ & _ & _ & _ & _ & L & _). auto.
+  - intros j t Ht Hst. exfalso. apply (landed_not_start t); [apply Hland; eapply nth_error_In; eauto|exact Hst].
+  - intros p _. rewrite nth_repeat_dps. reflexivity.
+  - intros j t Ht. destruct (Hall j t Ht) as (_ & _ & _ & _ & _ & _ & L). rewrite L. constructor.
+Qed.
+
+Lemma qinit_procs : forall M own scripts, Forall (Forall okq) scripts -> own_ok (length scripts) own ->
+    procs (qinit_own M own scripts) = repeat dps (length scripts).
+Proof.
+  intros M own scripts Hs Hown. unfold qinit_own, qinit_sys.
+  destruct (init_threads scripts own (length scripts) 0 Hs) as (ts & Et & _); [intros k Hk; apply Hown; exact Hk|].
+  rewrite Et. reflexivity.
 Qed.
 
 Fixpoint qrun_small (g : qsys) (sched : list (nat * bool)) : Prop :=
@@ -676,10 +158,10 @@ Fixpoint qrun_small (g : qsys) (sched : list (nat * bool)) : Prop :=
   | (i, go) :: r => match qstep qcode g i go with Some (g1, _) => qrun_small g1 r | None => True end
   end.
 
-Lemma qinv_run : forall M sched g g' es ok,
-    QInv M g -> qrun_small g sched -> qrun qcode g sched = (g', es, ok) -> QInv M g'.
+Lemma qinv_run : forall M own sched g g' es ok,
+    QInv M own g -> qrun_small g sched -> qrun qcode g sched = (g', es, ok) -> QInv M own g'.
 Proof.
-  intros M. induction sched as [|[i go] sched IH]; intros g g' es ok HI Hs H; cbn [qrun] in H.
+  intros M own. induction sched as [|[i go] sched IH]; intros g g' es ok HI Hs H; cbn [qrun] in H.
   - inversion H; subst; auto.
   - cbn [qrun_small] in Hs. destruct Hs as [Hsm Hs].
     destruct (qstep qcode g i go) as [[g1 e]|] eqn:Es.
@@ -712,12 +194,12 @@ Lemma psum_add : forall f g n, psum (fun p => f p + g p) n = psum f n + psum g n
 Proof. induction n as [|n IH]; cbn [psum]; lia. Qed.
 
 (* capacity: free slots + buffered + in the pipe + in transit = maxsize *)
-Theorem queue_capacity : forall M g, QInv M g ->
+Theorem queue_capacity : forall M own g, QInv M own g ->
     qv 0 g + sumz blen (procs g) + Z.of_nat (length (pipe g)) + sumz qt_tr (qthr g) = M /\
     0 <= qv 0 g /\
     sumz blen (procs g) + Z.of_nat (length (pipe g)) <= M.
 Proof.
-  intros M g HI. pose proof (q_cap M g HI). pose proof (q_cap0 M g HI).
+  intros M own g HI. pose proof (q_cap M own g HI). pose proof (q_cap0 M own g HI).
   assert (0 <= sumz qt_tr (qthr g)) by (apply sumz_nonneg; intros; apply qt_01).
   repeat split; lia.
 Qed.
@@ -725,15 +207,15 @@ Qed.
 (* per producer, restricted to the messages that can be serialised (pk): what it appended = what
    its feeder sent ++ what the feeder holds ++ its buffer, IN ORDER; the pipe is FIFO; the global send log is an order-preserving merge of the
    producers' send logs: its entries written by p's feeder are, in order, exactly slog p *)
-Theorem queue_fifo : forall M g, QInv M g ->
+Theorem queue_fifo : forall M own g, QInv M own g ->
     (forall p, pk (plog (nth p (procs g) dps)) =
-               slog (nth p (procs g) dps) ++ pk (ftr (nth (2 * p + 1) (qthr g) dqt)) ++ pk (buf (nth p (procs g) dps))) /\
+               slog (nth p (procs g) dps) ++ pk (fd_ftr (nth p (procs g) dps) (qthr g)) ++ pk (buf (nth p (procs g) dps))) /\
     map snd (sendlog g) = getlog g ++ pipe g /\
     (forall p, from_proc p (sendlog g) = slog (nth p (procs g) dps)) /\
     (forall m, zcnt m (map snd (sendlog g)) = sumz (fun ps => zcnt m (slog ps)) (procs g)).
 Proof.
-  intros M g HI. split; [apply (q_fifo M g HI)|]. split; [apply (q_pipe M g HI)|].
-  split; [apply (q_order M g HI)|apply (q_merge M g HI)].
+  intros M own g HI. split; [apply (q_fifo M own g HI)|]. split; [apply (q_pipe M own g HI)|].
+  split; [apply (q_order M own g HI)|apply (q_merge M own g HI)].
 Qed.
 
 Lemma zcnt_pk_true : forall m l, picklable m = true -> zcnt m (pk l) = zcnt m l.
@@ -760,16 +242,16 @@ Proof. induction l as [|x l IH]; cbn [zcnt]; [lia|]. destruct (x =? m); lia. Qed
 (* no loss, no duplication, for every message that can be serialised: each such message
    appended by some put is, with its multiplicity, exactly once in: received, in the pipe, held
    by a feeder, or buffered *)
-Theorem queue_no_loss_no_dup : forall M g m, QInv M g -> picklable m = true ->
+Theorem queue_no_loss_no_dup : forall M own g m, QInv M own g -> picklable m = true ->
     sumz (fun ps => zcnt m (plog ps)) (procs g) =
     zcnt m (getlog g) + zcnt m (pipe g)
-    + psum (fun p => zcnt m (ftr (nth (2 * p + 1) (qthr g) dqt))) (length (procs g))
+    + psum (fun p => zcnt m (fd_ftr (nth p (procs g) dps) (qthr g))) (length (procs g))
     + sumz (fun ps => zcnt m (buf ps)) (procs g).
 Proof.
-  intros M g m HI Hpk. destruct (queue_fifo M g HI) as (F1 & F2 & _ & F3).
+  intros M own g m HI Hpk. destruct (queue_fifo M own g HI) as (F1 & F2 & _ & F3).
   rewrite (sumz_psum (fun ps => zcnt m (plog ps))).
   rewrite (psum_ext _ (fun p => zcnt m (slog (nth p (procs g) dps))
-                               + (zcnt m (ftr (nth (2 * p + 1) (qthr g) dqt)) + zcnt m (buf (nth p (procs g) dps))))).
+                               + (zcnt m (fd_ftr (nth p (procs g) dps) (qthr g)) + zcnt m (buf (nth p (procs g) dps))))).
   2: { intros p _. rewrite <- (zcnt_pk_true m (plog _) Hpk), (F1 p), !zcnt_app, !(zcnt_pk_true m _ Hpk). lia. }
   rewrite psum_add, psum_add.
   rewrite <- (sumz_psum (fun ps => zcnt m (slog ps))), <- (sumz_psum (fun ps => zcnt m (buf ps))).
@@ -781,49 +263,49 @@ Qed.
 Lemma sumz_plus : forall A (f h : A -> Z) l, sumz (fun x => f x + h x) l = sumz f l + sumz h l.
 Proof. induction l as [|x l IH]; cbn; lia. Qed.
 
-Theorem get_returns_received : forall M g m, QInv M g -> m <> E_EMPTY ->
+Theorem get_returns_received : forall M own g m, QInv M own g -> m <> E_EMPTY ->
     zcnt m (getlog g) =
     sumz (fun t => rcount m (qresults t)) (qthr g) + sumz (fun t => zcnt m (gheld t)) (qthr g).
 Proof.
-  intros M g m HI Hm. rewrite (q_ret M g HI m Hm). unfold qt_ret. apply sumz_plus.
+  intros M own g m HI Hm. rewrite (q_ret M own g HI m Hm). unfold qt_ret. apply sumz_plus.
 Qed.
 
 (* put to get: each message, with its multiplicity among the accepted puts, is exactly:
    returned by a get + held by a get about to return it + in the pipe + held by a feeder +
    buffered *)
-Theorem put_get_exact : forall M g m, QInv M g -> m <> E_EMPTY -> picklable m = true ->
+Theorem put_get_exact : forall M own g m, QInv M own g -> m <> E_EMPTY -> picklable m = true ->
     sumz (fun ps => zcnt m (plog ps)) (procs g) =
     sumz (fun t => rcount m (qresults t)) (qthr g) + sumz (fun t => zcnt m (gheld t)) (qthr g)
     + zcnt m (pipe g)
-    + psum (fun p => zcnt m (ftr (nth (2 * p + 1) (qthr g) dqt))) (length (procs g))
+    + psum (fun p => zcnt m (fd_ftr (nth p (procs g) dps) (qthr g))) (length (procs g))
     + sumz (fun ps => zcnt m (buf ps)) (procs g).
 Proof.
-  intros M g m HI Hm Hpk. rewrite (queue_no_loss_no_dup M g m HI Hpk), (get_returns_received M g m HI Hm). lia.
+  intros M own g m HI Hm Hpk. rewrite (queue_no_loss_no_dup M own g m HI Hpk), (get_returns_received M own g m HI Hm). lia.
 Qed.
 
 (* the only loss: a message that cannot be serialised is never written to the pipe (it is
    dropped by the feeder, which gives its capacity token back: see qstep_inv at (2, 14)), so it
    is never received either *)
-Theorem unpicklable_never_sent : forall M g m, QInv M g -> picklable m = false ->
+Theorem unpicklable_never_sent : forall M own g m, QInv M own g -> picklable m = false ->
     zcnt m (map snd (sendlog g)) = 0 /\ zcnt m (getlog g) = 0 /\ zcnt m (pipe g) = 0.
 Proof.
-  intros M g m HI Hpk. destruct (queue_fifo M g HI) as (F1 & F2 & _ & F3).
+  intros M own g m HI Hpk. destruct (queue_fifo M own g HI) as (F1 & F2 & _ & F3).
   assert (Z0 : zcnt m (map snd (sendlog g)) = 0).
   { rewrite (F3 m). apply sumz_zero. intros ps Hin.
     destruct (In_nth _ _ dps Hin) as (p & _ & Ep). subst ps.
     pose proof (f_equal (zcnt m) (F1 p)) as E. rewrite (zcnt_pk_false m _ Hpk), !zcnt_app in E.
     pose proof (zcnt_nonneg m (slog (nth p (procs g) dps))).
-    pose proof (zcnt_nonneg m (pk (ftr (nth (2 * p + 1) (qthr g) dqt)))).
+    pose proof (zcnt_nonneg m (pk (fd_ftr (nth p (procs g) dps) (qthr g)))).
     pose proof (zcnt_nonneg m (pk (buf (nth p (procs g) dps)))). lia. }
   split; [exact Z0|]. rewrite F2, zcnt_app in Z0.
   pose proof (zcnt_nonneg m (getlog g)). pose proof (zcnt_nonneg m (pipe g)). lia.
 Qed.
 
 (* a feeder never ends: it is never finished and never stands at an exit *)
-Theorem feeder_never_ends : forall M g t, QInv M g -> In t (qthr g) -> qfeeder t = true ->
+Theorem feeder_never_ends : forall M own g t, QInv M own g -> In t (qthr g) -> qfeeder t = true ->
     qfin t = false /\ qexited qcode t = false.
 Proof.
-  intros M g t HI Ht Hf. destruct (q_li M g HI t Ht) as [_ H]. rewrite Hf in H.
+  intros M own g t HI Ht Hf. destruct (q_li M own g HI t Ht) as [_ H]. rewrite Hf in H.
   destruct H as (Hfin & Hc & _ & L). split; [exact Hfin|].
   unfold qexited. rewrite Hfin, Hc. cbn [negb andb qcode].
   destruct (qpc t) as [|pc]; [reflexivity|].
@@ -831,42 +313,49 @@ Proof.
 Qed.
 
 (* a feeder drops only a message that cannot be serialised *)
-Theorem feeder_drops_only_unpicklable : forall M g t, QInv M g -> In t (qthr g) ->
+Theorem feeder_drops_only_unpicklable : forall M own g t, QInv M own g -> In t (qthr g) ->
     qfeeder t = true -> qpc t = 14%nat -> picklable (r2 (qrg t)) = false.
 Proof.
-  intros M g t HI Ht Hf Hp. destruct (q_li M g HI t Ht) as [_ H]. rewrite Hf in H.
+  intros M own g t HI Ht Hf Hp. destruct (q_li M own g HI t Ht) as [_ H]. rewrite Hf in H.
   destruct H as (_ & _ & _ & L). rewrite Hp in L. exact L.
 Qed.
 
+(* per (process, THREAD) order: what the puts of one main thread have appended, in the order of that thread's
+   calls, is a subsequence of the append log of its process -- which queue_fifo carries, in order, to the feeder,
+   the pipe and the receive log *)
+Theorem thread_order : forall M own g i t, QInv M own g -> nth_error (qthr g) i = Some t ->
+    Subseq (tput t) (plog (nth (qproc t) (procs g) dps)).
+Proof. intros M own g i t HI Ht. apply (q_tp M own g HI i t Ht). Qed.
+
 (* the three locks *)
-Theorem queue_locks : forall M g, QInv M g ->
+Theorem queue_locks : forall M own g, QInv M own g ->
     qv 1 g + sumz qt_rl (qthr g) = 1 /\ qv 2 g + sumz qt_wl (qthr g) = 1 /\
     forall p, (p < length (procs g))%nat -> qv (nls p) g + sumz (qt_nl p) (qthr g) = 1.
 Proof.
-  intros M g HI. split; [apply (q_rl M g HI)|]. split; [apply (q_wl M g HI)|].
-  intros p Hp. apply (q_nl M g HI p Hp).
+  intros M own g HI. split; [apply (q_rl M own g HI)|]. split; [apply (q_wl M own g HI)|].
+  intros p Hp. apply (q_nl M own g HI p Hp).
 Qed.
 
 (* a put appends the message it was given *)
-Theorem put_appends_its_argument : forall M g t, QInv M g -> In t (qthr g) ->
+Theorem put_appends_its_argument : forall M own g t, QInv M own g -> In t (qthr g) ->
     qfeeder t = false -> qfin t = false -> (qcid t = 0%nat \/ qcid t = 3%nat) ->
     (qpc t = 0%nat \/ qpc t = 3%nat \/ qpc t = 6%nat) -> r2 (qrg t) = a2_of (qcur t).
 Proof.
-  intros M g t HI Ht Hf Hfin Hc Hp. destruct (q_li M g HI t Ht) as [_ H]. rewrite Hf in H.
+  intros M own g t HI Ht Hf Hfin Hc Hp. destruct (q_li M own g HI t Ht) as [_ H]. rewrite Hf in H.
   destruct H as [_ H]. destruct (H Hfin) as [_ L].
   destruct Hc as [E|E]; rewrite E in L; destruct Hp as [P|[P|P]]; rewrite P in L; cbn in L; auto; contradiction.
 Qed.
 (* a put's capacity acquire, on the scheduler choice `go`: fails iff the semaphore is 0
    (the put then raises Full), succeeds iff it is positive *)
-Theorem full_only_when_zero : forall M g i t g' e, QInv M g ->
+Theorem full_only_when_zero : forall M own g i t g' e, QInv M own g ->
     nth_error (qthr g) i = Some t -> qfin t = false -> qfeeder t = false ->
     (qcid t = 0%nat \/ qcid t = 3%nat) -> qpc t = 0%nat ->
     qstep qcode g i true = Some (g', e) ->
     (snd e = 0 -> qv 0 g = 0) /\ (snd e = 1 -> 0 < qv 0 g).
 Proof.
-  intros M g i t g' e HI Ht Hf Hfd Hc Hp H.
-  destruct (q_shape M g HI) as (_ & Sr & _). pose proof (q_cap0 M g HI) as H0. unfold qv in *.
-  unfold qstep in H. rewrite Ht, Hf, Hfd in H. cbn [andb] in H. rewrite Hp in H.
+  intros M own g i t g' e HI Ht Hf Hfd Hc Hp H.
+  destruct (q_shape M own g HI) as (_ & Sr & _). pose proof (q_cap0 M own g HI) as H0. unfold qv in *.
+  unfold qstep, qdormant in H. rewrite Ht, Hf, Hfd in H. cbn [andb] in H. rewrite Hp in H.
   assert (Hi : nth_error (qcode (qcid t)) 0 = Some (QAcq (SG 0) (FR 1) (FR 0) 7)) by (destruct Hc as [E|E]; rewrite E; reflexivity).
   rewrite Hi in H. rewrite sid_sg in H. unfold sem_acq in H. rewrite Sr in H. cbn [andb] in H.
   destruct (0 <? val (nth 0 (qsems g) dsem)) eqn:Ev.
@@ -882,7 +371,7 @@ Theorem empty_only_when_nothing : forall g i t g' e,
     (snd e = 0 <-> pipe g = []).
 Proof.
   intros g i t g' e Ht Hf Hfd Hc Hp H.
-  unfold qstep in H. rewrite Ht, Hf, Hfd in H. cbn [andb] in H. rewrite Hc, Hp in H.
+  unfold qstep, qdormant in H. rewrite Ht, Hf, Hfd in H. cbn [andb] in H. rewrite Hc, Hp in H.
   cbn [qcode p_q_get nth_error flagv] in H.
   destruct (pipe g) as [|m rest]; inversion H; subst e; cbn [snd]; split; intros; try discriminate; auto.
 Qed.
@@ -890,20 +379,20 @@ Qed.
 (* ------------------------------------------------------------------ JoinableQueue's counter
    _unfinished_tasks = (JoinableQueue.put calls past their release of the counter)
                      - (task_done calls past their successful acquire of it)           *)
-Theorem unfinished_count : forall M g, QInv M g -> qv 3 g = sumz qt_unf (qthr g) /\ 0 <= qv 3 g.
-Proof. intros M g HI. apply (q_unf M g HI). Qed.
+Theorem unfinished_count : forall M own g, QInv M own g -> qv 3 g = sumz qt_unf (qthr g) /\ 0 <= qv 3 g.
+Proof. intros M own g HI. apply (q_unf M own g HI). Qed.
 
 (* task_done raises ValueError exactly when every counted put has already been matched *)
-Theorem task_done_raises_iff_matched : forall M g i t g' e, QInv M g ->
+Theorem task_done_raises_iff_matched : forall M own g i t g' e, QInv M own g ->
     nth_error (qthr g) i = Some t -> qfin t = false -> qfeeder t = false ->
     qcid t = 4%nat -> qpc t = 1%nat ->
     qstep qcode g i true = Some (g', e) ->
     (snd e = 0 <-> sumz qt_unf (qthr g) = 0) /\ (snd e = 1 <-> 0 < sumz qt_unf (qthr g)).
 Proof.
-  intros M g i t g' e HI Ht Hf Hfd Hc Hp H.
-  destruct (q_shape M g HI) as (_ & _ & _ & S3 & _). destruct (S3 3%nat ltac:(auto)) as [_ Sr].
-  destruct (q_unf M g HI) as [U U0]. unfold qv in *. rewrite <- U.
-  unfold qstep in H. rewrite Ht, Hf, Hfd in H. cbn [andb] in H. rewrite Hc, Hp in H.
+  intros M own g i t g' e HI Ht Hf Hfd Hc Hp H.
+  destruct (q_shape M own g HI) as (_ & _ & _ & S3 & _). destruct (S3 3%nat ltac:(auto)) as [_ Sr].
+  destruct (q_unf M own g HI) as [U U0]. unfold qv in *. rewrite <- U.
+  unfold qstep, qdormant in H. rewrite Ht, Hf, Hfd in H. cbn [andb] in H. rewrite Hc, Hp in H.
   cbn [qcode p_jq_task_done nth_error flagv andb] in H. rewrite sid_sg in H.
   unfold sem_acq in H. rewrite Sr in H. cbn [andb] in H.
   destruct (0 <? val (nth 3 (qsems g) dsem)) eqn:Ev.
@@ -913,15 +402,15 @@ Qed.
 
 (* join's test `_unfinished_tasks._semlock._is_zero()` (made under the condition's lock) reads
    "zero" exactly when every counted put has been matched *)
-Theorem join_test_iff_matched : forall M g i t g' e, QInv M g ->
+Theorem join_test_iff_matched : forall M own g i t g' e, QInv M own g ->
     nth_error (qthr g) i = Some t -> qfin t = false -> qfeeder t = false ->
     qcid t = 5%nat -> qpc t = 1%nat ->
     qstep qcode g i true = Some (g', e) ->
     (snd e = 1 <-> sumz qt_unf (qthr g) = 0).
 Proof.
-  intros M g i t g' e HI Ht Hf Hfd Hc Hp H.
-  destruct (q_unf M g HI) as [U U0]. unfold qv in *. rewrite <- U.
-  unfold qstep in H. rewrite Ht, Hf, Hfd in H. cbn [andb] in H. rewrite Hc, Hp in H.
+  intros M own g i t g' e HI Ht Hf Hfd Hc Hp H.
+  destruct (q_unf M own g HI) as [U U0]. unfold qv in *. rewrite <- U.
+  unfold qstep, qdormant in H. rewrite Ht, Hf, Hfd in H. cbn [andb] in H. rewrite Hc, Hp in H.
   cbn [qcode p_jq_join nth_error] in H. rewrite sid_sg in H.
   destruct (val (nth 3 (qsems g) dsem) =? 0) eqn:Ev; inversion H; subst e; cbn [snd]; split; intros; try discriminate; lia.
 Qed.
@@ -951,7 +440,7 @@ Proof.
   intros. unfold qstep.
   destruct (nth_error (qthr g) i) as [t|]; [|reflexivity].
   destruct (qfin t); [reflexivity|].
-  destruct (qfeeder t && negb (started (nth (qproc t) (procs g) dps))); [reflexivity|].
+  destruct (qdormant g i t); [reflexivity|].
   rewrite Hext.
   destruct (nth_error (code2 (qcid t)) (qpc t)) as [ins|]; [|reflexivity].
   destruct ins; try reflexivity; rewrite ?qadvance_ext, ?qabort_ext; try reflexivity.
@@ -969,15 +458,16 @@ Proof.
   rewrite IH. reflexivity.
 Qed.
 
-Lemma qinit_threads_ext : forall F scripts p, qinit_threads code1 F p scripts = qinit_threads code2 F p scripts.
+Lemma qinit_threads_ext : forall F own scripts q pss,
+    qinit_threads code1 F q own scripts pss = qinit_threads code2 F q own scripts pss.
 Proof.
-  induction scripts as [|sc scripts IH]; intros p; cbn [qinit_threads]; [reflexivity|].
-  rewrite !qstart_ext. destruct (qstart code2 p false [] [] sc dps) as [tm ps1].
-  rewrite !qstart_ext. destruct (qstart code2 p true [] [] [(F, 0, 0, 0)] ps1) as [tf ps2].
+  induction scripts as [|sc scripts IH]; intros q pss; cbn [qinit_threads]; [reflexivity|].
+  rewrite !qstart_ext. destruct (qstart code2 (owner own q) false [] [] sc (nth (owner own q) pss dps)) as [tm ps1].
+  rewrite !qstart_ext. destruct (qstart code2 (owner own q) true [] [] [(F, 0, 0, 0)] ps1) as [tf ps2].
   rewrite IH. reflexivity.
 Qed.
 
-Lemma qinit_sys_ext : forall F ss scripts, qinit_sys code1 F ss scripts = qinit_sys code2 F ss scripts.
+Lemma qinit_sys_ext : forall F ss own scripts, qinit_sys code1 F ss own scripts = qinit_sys code2 F ss own scripts.
 Proof. intros. unfold qinit_sys. rewrite qinit_threads_ext. reflexivity. Qed.
 End QExt.
 
